@@ -13,6 +13,7 @@ from .values import (Unsupported, Raised, ExcObj, SBytes, SStr, Opq, Fmt, Choice
                      is_z3, is_symint, is_symbool, is_intlike, is_str, zint, zbool, simp, mkstr, segs_of,
                      str_term, val_eq, ufun, obj_cls, obj_fields, lit)
 from .engine import PathEnd, Infeasible
+from .seq import Chunk as _Chunk
 from . import ops
 from .ops import raise_py, truthy, is_concrete
 
